@@ -174,14 +174,16 @@ def col_selector(draw, nch):
 # ---------------------------------------------------------------------------------------------
 
 SAMPLE_DTYPES = ['int16', 'int32', 'uint8', 'float32', 'float64']
+BIG_ENDIAN_DTYPES = ['>i2', '>f4']      # non-native byte order (not offered to the cbin codec)
 
 
 @st.composite
 def layout(draw, max_n=64, max_parts=5, backends=('flat', 'flat', 'npy', 'array', 'cbin'),
-           dtypes=SAMPLE_DTYPES, min_n=1):
+           dtypes=SAMPLE_DTYPES, min_n=1, big_endian=False):
     n = draw(st.integers(min_n, 12) | st.integers(min_n, max_n))
     backend = draw(st.sampled_from(list(backends)))
-    lay = {'n': n, 'nch': draw(st.integers(1, 5)), 'dtype': draw(st.sampled_from(list(dtypes))),
+    dts = list(dtypes) + (BIG_ENDIAN_DTYPES if (backend != 'cbin' and big_endian) else [])
+    lay = {'n': n, 'nch': draw(st.integers(1, 5)), 'dtype': draw(st.sampled_from(dts)),
            'backend': backend, 'salt': draw(st.integers(0, 50))}
     if backend == 'flat':
         lay['parts'] = draw(composition(n, max_parts))
